@@ -415,9 +415,9 @@ class BzrGitMapping(foreign.VcsMapping):
                     raise AssertionError(f"unexpected length for {git_p!r}")
                 parents.append(git_p)
         commit.parents = parents
-        try:
-            encoding = rev.properties["git-explicit-encoding"]
-        except KeyError:
+        encoding = rev.properties.get("git-explicit-encoding")
+        if encoding is None or encoding == "false":
+            # "encoding false" names no codec: import_commit guessed one
             encoding = rev.properties.get("git-implicit-encoding", "utf-8")
         with contextlib.suppress(KeyError):
             commit.encoding = rev.properties["git-explicit-encoding"].encode("ascii")
@@ -512,7 +512,10 @@ class BzrGitMapping(foreign.VcsMapping):
         Returns:
             The Bazaar revision ID for this commit.
         """
-        encoding = commit.encoding.decode("ascii") if commit.encoding else "utf-8"
+        if commit.encoding and commit.encoding != b"false":
+            encoding = commit.encoding.decode("ascii")
+        else:
+            encoding = "utf-8"
         if commit.message is not None:
             try:
                 _message, metadata = self._decode_commit_message(
